@@ -159,6 +159,8 @@ struct Slot {
     std::set<std::tuple<int, long, long>> c09_model;
     // mirrors
     std::map<std::string, SubM> subs;
+    std::vector<std::pair<std::string, uint64_t>> sub_history;
+    std::set<uint64_t> oneshot_sub_uds;   // user data ids of one-shot subscriptions   // every (topic, user data) this module subscribed with since it last stopped
     std::vector<SrcM> srcs;
     std::vector<SrcM> recent_srcs;    // removed since the last quiescent point
     std::vector<int> hstack;          // become stack (handler indices)
